@@ -117,6 +117,11 @@ class Reductions(Contract):
                             yield dict(fn=fn, fmt=list(fm), shape=list(shape), axis=axis, route=route)
                         if fm[2] <= 0 and axis is None and len(shape) == 1:
                             yield dict(fn=fn, fmt=list(fm), shape=list(shape), axis=axis, route='np', vint=True)      # integer-typed array (vdtype int)
+        # a bound that is exactly zero (and integer bounds) on either side
+        for fm in fms[:3]:
+            for bounds in ([0, 1.5], [-0.75, 0], [0, 0], [-1, 1]):
+                for route in ('np', 'method'):
+                    yield dict(fn='clip', fmt=list(fm), shape=[2], axis=None, route=route, clip_bounds=bounds)
         for fm in [m for m in fms if m[2] >= 2][:2]:      # limits -0.75 / 1.5 representable in the operand's format
             yield dict(fn='clip', fmt=list(fm), shape=[2], axis=None, route='np', clip_out=True)
         # dot products
@@ -153,7 +158,7 @@ class Reductions(Contract):
         elif fn == 'transpose':
             z = np.transpose(x) if route == 'np' else x.transpose()
         elif fn == 'clip':
-            lo, hi = -0.75, 1.5
+            lo, hi = cfg.get('clip_bounds', (-0.75, 1.5))
             if cfg.get('clip_out'):
                 # out= object with another fraction length: the limits are still values, not codes of the output format
                 zo = make_fxp(P, True, 12, f + 2, codes=[0] * nelem(cfg['shape']), shape=tuple(cfg['shape']), vdtype=float)
@@ -206,7 +211,8 @@ class Reductions(Contract):
             eshape = tuple(reversed(shape))
             exp = [vals[pos[tuple(reversed(o))]] for o in _idx(eshape)]
         elif fn == 'clip':
-            eshape, exp = shape, [ite(v > Fraction(3, 2), Fraction(3, 2), ite(v < Fraction(-3, 4), Fraction(-3, 4), v)) for v in vals]
+            blo, bhi = [Fraction(b) for b in cfg.get('clip_bounds', (-0.75, 1.5))]
+            eshape, exp = shape, [ite(v > bhi, bhi, ite(v < blo, blo, v)) for v in vals]
         elif fn == 'sort':
             def srt(line):
                 if len(line) == 1: return line
